@@ -9,8 +9,6 @@ import time
 import vlib
 
 ACTIONS = ['Write', 'AppendOp', 'Sync', 'CloseSegment', 'Remove', 'Close', 'Crash', 'Reopen']
-UNIT = 64      # bytes per size unit of the spec (entries are padded to 2 or 4 units)
-SEGSIZE = 4    # spec constant SegSize, in units
 
 
 def _sig(h):
@@ -18,11 +16,8 @@ def _sig(h):
     return json.dumps([[s.get('a'), s.get('n'), s.get('j'), s.get('tz'), s.get('ids')] for s in h])
 
 
-def _case(ctx, hist, ops, tag, sweep=None):
-    if sweep is None:
-        # every byte offset of what each step appended for a quarter of the histories, header offsets + a seeded sample else
-        sweep = 'all' if ctx.rng.random() < 0.25 else 'sample'
-    return {'steps': hist, 'ops': ops, 'variant': ctx.rng.randrange(1, 1 << 30), 'unit': UNIT, 'segSize': SEGSIZE,
+def _case(ctx, hist, ops, tag, sweep='all'):
+    return {'steps': hist, 'ops': ops, 'variant': ctx.rng.randrange(1, 1 << 30),
             # segment numbering starts after an empty last segment left by an earlier process: the ids of the history
             # straddle a digit boundary of the file names for some cases
             'base': ctx.rng.choice([0, 0, 7, 8, 97, 98, 9997]), 'sweep': sweep, 'tag': tag}
@@ -58,14 +53,14 @@ def run(ctx):
         exh.append((is_lead, h, st['ops']))
     if quick and n_lead == 0:
         raise vlib.Inconclusive('the exhaustive generation does not contain the lead history (append, torn crash, reopen, write)')
-    budget_x = 500 if quick else 6000
+    budget_x = 2400 if quick else 12000
     must = [e for e in exh if e[0]]
     rest = [e for e in exh if not e[0]]
     chosen = must[:50] + vlib.sample_list(ctx.rng, rest, max(0, budget_x - min(50, len(must))))
     ctx.exhaustive = len(chosen) == len(exh)
-    cases = [_case(ctx, h, ops, 'lead' if il else 'exh', 'all' if il else None) for il, h, ops in chosen]
+    cases = [_case(ctx, h, ops, 'lead' if il else 'exh') for il, h, ops in chosen]
     # 4. longer random behaviours of the full configuration
-    nsim = 260 if quick else 9000
+    nsim = 60 if quick else 1500   # per TLC worker
     depth = 11 if quick else 15
     sim = ctx.tlc('WAL', f'WAL.Gen_{tier}.cfg', timeout=600 if quick else 1500, simulate={'num': nsim}, depth=depth)
     if sim.timed_out or not sim.ok:
@@ -97,7 +92,7 @@ def run(ctx):
     ctx.extra_cov['histories_with_remove'] = sum(1 for c in cases if any(s['a'] == 'remove' for s in c['steps']))
     ctx.rule = ('every history of the small configuration (Genx, sampled by seed when above budget; all histories that start with '
                 'the model-level lead are kept) plus distinct random behaviours of the full configuration (2 keys x 3 timestamps, '
-                '7 operation templates, SegSize 4 units of 64 bytes, up to 2 callers per fsync); after every step: segment files '
+                '7 operation templates of 2 or 4 size units, SegSize 4 units, up to 2 callers per fsync); after every step: segment files '
                 'read back entry by entry, ClosedSegments, a crash image through CacheLoader, and every byte truncation of the '
                 'bytes the step appended; non-trivial = a history with a Remove, a crash with in-flight entries, two callers '
                 'sharing one fsync, or at least two flushes')
